@@ -106,6 +106,46 @@ def linRxnsOf (isos : List (Name × List Slot)) (baseRxns : List (Name × List (
     let subs ← mapLabelmapToSubstrates subs labelmap
     pure (slotRxns rxn 0 subs prods)
 
+/-! ### label maps as Python reads them: integer indices, a negative index counts from the end -/
+
+/-- `_add_label_influx_or_efflux` (only `len(labelmap)` is read) -/
+def addInfluxEffluxI (subs prods : List Slot) (labelmap : List Int) :
+    Except LErr (List Slot × List Slot) :=
+  let prods := prods ++ List.replicate (subs.length - prods.length) Slot.ext
+  let subs := subs ++ List.replicate (prods.length - subs.length) Slot.ext
+  if labelmap.length < subs.length then .error .valueError else .ok (subs, prods)
+
+/-- the comprehension of `_map_labelmap_to_substrates` for any integer map: `substrates[pos]` with
+    Python's index rule (`Mxl.C05.pyIndex`) -/
+def pickSlotsI (subs : List Slot) : List Slot → List Int → Except LErr (List Slot)
+  | [], [] => .ok []
+  | _ :: ss, p :: ps =>
+    match Mxl.C05.pyIndex subs.length p with
+    | .error e => .error e
+    | .ok j =>
+      match subs[j]? with
+      | some s => do
+        let rest ← pickSlotsI subs ss ps
+        pure (s :: rest)
+      | none => .error .indexError
+  | _, _ => .error .valueError
+
+def mapLabelmapToSubstratesI (subs : List Slot) (labelmap : List Int) : Except LErr (List Slot) :=
+  pickSlotsI subs subs labelmap
+
+/-- body of `for rxn_name, label_map in self.label_maps.items()`, integer map -/
+def linRxnsOfI (isos : List (Name × List Slot)) (baseRxns : List (Name × List (Name × Int)))
+    (rxn : Name) (labelmap : List Int) : Except LErr (List LinRxn) :=
+  match baseRxns.lookup rxn with
+  | none => .error (.keyError rxn)
+  | some st => do
+    let (s, p) := unpackLin st
+    let subs ← slotsOf isos (dupList s)
+    let prods ← slotsOf isos (dupList p)
+    let (subs, prods) ← addInfluxEffluxI subs prods labelmap
+    let subs ← mapLabelmapToSubstratesI subs labelmap
+    pure (slotRxns rxn 0 subs prods)
+
 /-- `variables[f"{base}__{pos}"] = v`: in place if present, else appended -/
 def setSlot (m : List (Slot × Rat)) (k : Slot) (v : Rat) : List (Slot × Rat) :=
   match m with
@@ -127,6 +167,78 @@ def linearBuild (baseRxns : List (Name × List (Name × Int))) (lv : List (Name 
   let vars := initLabels.foldl (fun vs kp =>
     kp.2.foldl (fun vs pos => setSlot vs (Slot.pos kp.1 pos) (1 / (kp.2.length : Rat))) vs) zeros
   let groups ← maps.mapM fun km => linRxnsOf isos baseRxns km.1 km.2
+  pure { vars, rxns := groups.flatten }
+
+/-- padded length of a `label_maps` entry's reaction (0 when the entry is rejected before the map is
+    read) -/
+def padLen (isos : List (Name × List Slot)) (baseRxns : List (Name × List (Name × Int)))
+    (rxn : Name) : Nat :=
+  match baseRxns.lookup rxn with
+  | none => 0
+  | some st =>
+    match slotsOf isos (dupList (unpackLin st).1), slotsOf isos (dupList (unpackLin st).2) with
+    | .ok s, .ok p => max s.length p.length
+    | _, _ => 0
+
+/-- `LinearLabelMapper.build_model`, integer maps (this is what the driver runs) -/
+def linearBuildI (baseRxns : List (Name × List (Name × Int))) (lv : List (Name × Nat))
+    (maps : List (Name × List Int)) (initLabels : List (Name × List Nat)) :
+    Except LErr LinModel := do
+  let isos ← lv.mapM fun kn => do pure (kn.1, ← isotopeLabels kn.1 kn.2)
+  let zeros := (isos.flatMap (·.2)).map fun s => (s, (0 : Rat))
+  let vars := initLabels.foldl (fun vs kp =>
+    kp.2.foldl (fun vs pos => setSlot vs (Slot.pos kp.1 pos) (1 / (kp.2.length : Rat))) vs) zeros
+  let groups ← maps.mapM fun km => linRxnsOfI isos baseRxns km.1 km.2
+  pure { vars, rxns := groups.flatten }
+
+/-! ### stoichiometric coefficients as the base model stores them (`float | Derived`) -/
+
+/-- `_unpack_stoichiometries` on raw coefficients, entry by entry (after repo commit "fix:
+    LinearLabelMapper refuses a fractional stoichiometric coefficient ..."): a `Derived` raises
+    `NotImplementedError`; `n = int(v)`, `n != v` — a float that is not a whole number — raises
+    `ValueError`; a negative `n` goes to the substrates as `-n`, any other to the products -/
+def unpackLinRaw : List (Name × Mxl.C05.Coef) → Except LErr (List (Name × Nat) × List (Name × Nat))
+  | [] => .ok ([], [])
+  | (k, c) :: rest =>
+    match c with
+    | .derived => .error .notImplementedError
+    | .int v => do
+      let (s, p) ← unpackLinRaw rest
+      if v < 0 then pure ((k, (-v).toNat) :: s, p) else pure (s, (k, v.toNat) :: p)
+    | .float q =>
+      if ((Mxl.C05.pyTrunc q : Int) : Rat) = q then do
+        let (s, p) ← unpackLinRaw rest
+        if Mxl.C05.pyTrunc q < 0 then pure ((k, (-(Mxl.C05.pyTrunc q)).toNat) :: s, p)
+        else pure (s, (k, (Mxl.C05.pyTrunc q).toNat) :: p)
+      else .error .valueError
+
+/-- body of `for rxn_name, label_map in self.label_maps.items()` on raw coefficients: `raw` lists the
+    reactions whose coefficients are not all Python `int`s -/
+def linRxnsOfP (isos : List (Name × List Slot)) (baseRxns : List (Name × List (Name × Int)))
+    (raw : List (Name × List (Name × Mxl.C05.Coef))) (rxn : Name) (labelmap : List Int) :
+    Except LErr (List LinRxn) :=
+  match raw.lookup rxn with
+  | none => linRxnsOfI isos baseRxns rxn labelmap
+  | some st =>
+    match baseRxns.lookup rxn with
+    | none => .error (.keyError rxn)
+    | some _ => do
+      let (s, p) ← unpackLinRaw st
+      let subs ← slotsOf isos (dupList s)
+      let prods ← slotsOf isos (dupList p)
+      let (subs, prods) ← addInfluxEffluxI subs prods labelmap
+      let subs ← mapLabelmapToSubstratesI subs labelmap
+      pure (slotRxns rxn 0 subs prods)
+
+/-- `LinearLabelMapper.build_model` on raw coefficients (this is what the driver runs) -/
+def linearBuildP (baseRxns : List (Name × List (Name × Int))) (lv : List (Name × Nat))
+    (maps : List (Name × List Int)) (raw : List (Name × List (Name × Mxl.C05.Coef)))
+    (initLabels : List (Name × List Nat)) : Except LErr LinModel := do
+  let isos ← lv.mapM fun kn => do pure (kn.1, ← isotopeLabels kn.1 kn.2)
+  let zeros := (isos.flatMap (·.2)).map fun s => (s, (0 : Rat))
+  let vars := initLabels.foldl (fun vs kp =>
+    kp.2.foldl (fun vs pos => setSlot vs (Slot.pos kp.1 pos) (1 / (kp.2.length : Rat))) vs) zeros
+  let groups ← maps.mapM fun km => linRxnsOfP isos baseRxns raw km.1 km.2
   pure { vars, rxns := groups.flatten }
 
 /-- the reading of a map that `LabelMapper` and the documentation use: product position `i` is fed
@@ -164,6 +276,15 @@ def enrichOf (lv : List (Name × Nat)) (σ : Mxl.C05.LName → Rat) : Slot → R
 def paddedSubs (lv : List (Name × Nat)) (r : Mxl.C05.BRxn) : List Slot :=
   slotsFlat lv (Mxl.C05.subsOf r)
     ++ List.replicate ((slotsFlat lv (Mxl.C05.prodsOf r)).length - (slotsFlat lv (Mxl.C05.subsOf r)).length) Slot.ext
+
+/-- the product positions of a reaction padded with `EXT` up to the substrate positions -/
+def paddedProds (lv : List (Name × Nat)) (r : Mxl.C05.BRxn) : List Slot :=
+  slotsFlat lv (Mxl.C05.prodsOf r)
+    ++ List.replicate ((slotsFlat lv (Mxl.C05.subsOf r)).length - (slotsFlat lv (Mxl.C05.prodsOf r)).length) Slot.ext
+
+/-- the `isotopomers` dict of the linear mapper when every listed compound has positions -/
+def isosOf (lv : List (Name × Nat)) : List (Name × List Slot) :=
+  lv.map fun kn => (kn.1, (List.range kn.2).map (Slot.pos kn.1))
 
 /-! ### numeric reading -/
 
